@@ -9,7 +9,6 @@ ROOT=$(cd "$HERE/../.." && pwd)
 TMP=$(mktemp -d "${TMPDIR:-/tmp}/picolon-check.XXXXXX")
 trap 'rm -rf "$TMP"' EXIT
 (cd "$ROOT/lean" && lake env lean ../extract/picolon/deps.lean > "$TMP/deps.txt")
-if grep -q '^NORANGE' "$TMP/deps.txt"; then echo "picolon: declarations without source range:"; grep '^NORANGE' "$TMP/deps.txt"; exit 2; fi
 python3 "$HERE/gen.py" "$TMP/deps.txt" "$TMP/out" > "$TMP/gen.log"
 rc=0
 for f in "$TMP"/out/XotModel/Lemmas/PiColon*.lean; do
